@@ -2,7 +2,7 @@
 
 E1 + differential oracle: for 2- and 3-ceilometer scenes ALL injective maps into a 9-name pool
 (order-reversing names, names that sort differently as strings such as '10' < '9', empty-ish names
-that collide after stripping, a long name), with the exclusion list mapped accordingly, x look-back.
+that collide after stripping, a long name; numeric-looking names that are prefixes of each other on non-negative stamps), with the exclusion list mapped accordingly, x look-back.
 Oracle: message, tables and per-hit assignments bit-identical after mapping the names back.
 """
 import itertools
@@ -22,6 +22,8 @@ ASSUMPTIONS = ['rows keep their order; only the ceilo column (and the exclusion 
 
 POOL = ['a', 'B', '10', '9', '', ' ', 'A', 'AB', 'x' * 50]
 # names that some helper might parse instead of comparing (regex metacharacters, list separators, missing-value look-alikes)
+# numeric-looking names that are prefixes of each other: a key built by gluing name and time stamp together confuses ('1', 10.0) with ('11', 0.0)
+NUM_POOL = ['1', '11', '2', '12', 'K', 'K2']
 ODD_POOL = ['CL31+', 'CL31', 'a.b', 'a_b', '(x)', 'nan', 'a,b', '\\d']
 
 
@@ -49,6 +51,20 @@ def micro_scenes():
         rows.append(['a', dt, 1000.0 + 5 * i, 1]); rows.append(['b', dt, 1104.0 + 5 * i, 1]); rows.append(['c', dt, 1050.0 + 5 * i, 1])
         if i % 5 == 0:
             rows.append(['b', dt, 9000.0, 2])
+    rows = []
+    for i in range(30):
+        dt = 10.0 * i                       # non-negative stamps on a 10 s grid (no minus sign between a name and a stamp)
+        rows.append(['a', dt, 1000.0 + 5 * i, 1])
+        rows.append(['b', dt, 1010.0 + 5 * i, 1] if i % 2 else ['b', dt, None, 0])
+    out.append(('positive-grid', {'gen': 'rows', 'rows': rows}))
+    # unequal numbers of measurements per instrument and an almost full layer (one hole: inside the default okta-8 buffer)
+    rows = []
+    for i in range(26):
+        dt = 0.0 - 15.0 * (25 - i)
+        if i >= 6:
+            rows.append(['a', dt + 3.0, 2100.0 + 2 * i, 1])
+        rows.append(['b', dt, 2104.0 + 2 * i, 1] if i != 13 else ['b', dt, None, 0])
+    out.append(('unequal-nearly-full', {'gen': 'rows', 'rows': rows}))
     out.append(('msa-crop-sim3', {'gen': 'rows', 'rows': rows, 'prms': {'MSA': 5000, 'MSA_HIT_BUFFER': 1500}}))
     return out
 
@@ -59,13 +75,15 @@ def bound(tier):
 
 def cases(tier):
     out = []
-    two = micro_scenes()[:2] + _deckfam.two_ceilo_scenes('quick')[::2]
+    ms = {n: sp for n, sp in micro_scenes()}
+    extra = [('positive-grid', ms['positive-grid']), ('unequal-nearly-full', ms['unequal-nearly-full'])]
+    two = micro_scenes()[:2] + extra + _deckfam.two_ceilo_scenes('quick')[::2]
     if tier != 'quick':
-        two = micro_scenes()[:2] + _deckfam.two_ceilo_scenes('quick')
+        two = micro_scenes()[:2] + extra + _deckfam.two_ceilo_scenes('quick')
     for name, spec in two:
         for lb in ((100, 30) if tier == 'quick' else (100, 50, 30)):
             out.append({'fam': 'two', 'name': name, 'scene': spec, 'lookback': lb})
-    three = [micro_scenes()[2], micro_scenes()[3], ('3c:split', _deckfam.D({'h': 1500., 'n': 30, 'pattern': 'jitter'}, {'h': 1950., 'n': 30, 'pattern': 'jitter'},
+    three = [('three-offset', ms['three-offset']), ('msa-crop-sim3', ms['msa-crop-sim3']), ('3c:split', _deckfam.D({'h': 1500., 'n': 30, 'pattern': 'jitter'}, {'h': 1950., 'n': 30, 'pattern': 'jitter'},
                                                          T=30, ceilos=['a', 'b', 'c'], ceilo_offsets=[0., 10., -10.]))]
     for name, spec in three:
         for lb in ((50, 15) if tier == 'quick' and name == 'msa-crop-sim3' else (50,) if tier == 'quick' else (100, 50, 30, 15)):
@@ -115,6 +133,7 @@ def run_case(case):
         maps = [dict(zip(names, img)) for img in itertools.permutations(POOL, len(names))]
         if len(names) == 2 and case['lookback'] == 100:
             maps += [dict(zip(names, img)) for img in itertools.permutations(ODD_POOL, 2)]
+            maps += [dict(zip(names, img)) for img in itertools.permutations(NUM_POOL, 2)]
         if case['fam'] == 'three':
             maps = maps[case['part']::4]
         excls = [[]] + [[n] for n in names]
